@@ -229,7 +229,9 @@ func (d *driver) viol(res *engine.Result, path, breach, what string, p []string,
 func (d *driver) checkLocked(res *engine.Result, path string, m model, p []string) {
 	tr, isVesting := d.tracked(m)
 	if !isVesting {
-		return
+		// the account object is no longer a vesting account (converted): what the schedules lock is
+		// still owed, with the reference's own delegation counter standing in for the tracked one
+		tr = m.delegated
 	}
 	if tr.GT(m.delegated) {
 		d.viol(res, path, "tracked-inflated", "the account tracks more delegated coins than it ever delegated and has not got back", p, map[string]any{"tracked": tr.String(), "delegated_ref": m.delegated.String()})
@@ -445,6 +447,61 @@ func (d *driver) ops(w *world.World, depth int, path []string) []engine.Op {
 		w.App.StakingKeeper.Slash(ctx, w.ValCons[0], w.Header.Height, power, sdk.NewDecWithPrec(5, 1))
 		d.checkLocked(res, "slash", m, p)
 		return "ok", m
+	})
+	// the account asks to become a plain account again (allowed only when nothing is unvested or locked)
+	add("convertVestingAccount", func(p []string, res *engine.Result, m model) (string, model) {
+		if _, isV := d.tracked(m); !isV {
+			return "skip", m
+		}
+		r := w.Deliver(d.cosmos([]sdk.Msg{vtypes.NewMsgConvertVestingAccount(d.V)}, nil, vKeyIdx))
+		if r.Code != 0 {
+			return "rejected", m
+		}
+		t := d.now()
+		orig := sdkmath.NewIntFromBigInt(m.vest.Total().Get(world.Denom))
+		uv := sdkmath.MinInt(sdkmath.NewIntFromBigInt(m.vest.Read(t).Get(world.Denom)), sdkmath.NewIntFromBigInt(m.lock.Read(t).Get(world.Denom)))
+		if uv.LT(orig) {
+			d.viol(res, "convert-account", "converted-while-locked", "the vesting account was converted to a plain account while coins were still unvested or locked", p,
+				map[string]any{"original": orig.String(), "unlocked_vested_ref": uv.String()})
+		}
+		d.checkLocked(res, "convert-account", m, p)
+		res.Nontrivial[fmt.Sprintf("%s|convert-account|%d", d.sc.name, d.now()-d.t0)] = true
+		return "ok", m
+	})
+	// the funder adds a second, partly vested grant with automatic staking of its vested part
+	add("grantWithStake(start-15s)", func(p []string, res *engine.Result, m model) (string, model) {
+		if _, isV := d.tracked(m); !isV {
+			return "skip", m
+		}
+		start := d.now() - 15
+		ps := []rm.Period{P(10, 400), P(10, 400)}
+		msg := vtypes.NewMsgConvertIntoVestingAccount(d.F, d.V, time.Unix(start, 0).UTC(), nil, toSDK(ps), true, true, v1)
+		fbz, err := w.CosmosTx(w.Ctx(), world.CosmosSpec{Key: w.Keys[1], Msgs: []sdk.Msg{msg}, Gas: 3000000})
+		if err != nil {
+			panic(err)
+		}
+		pre := d.bal()
+		r := w.Deliver(fbz)
+		if r.Code != 0 {
+			return "rejected", m
+		}
+		grant := sdkmath.NewInt(800)
+		staked := grant.Sub(d.bal().Sub(pre))
+		nm := m
+		nm.vest = rm.Union(m.vest, rm.FromPeriods(start, ps))
+		nm.lock = rm.Union(m.lock, rm.FromPeriods(start, []rm.Period{{Len: 0, A: rm.One(world.Denom, 800)}}))
+		nm.delegated = m.delegated.Add(staked)
+		t := d.now()
+		unv := sdkmath.NewIntFromBigInt(nm.vest.Total().Get(world.Denom)).Sub(sdkmath.NewIntFromBigInt(nm.vest.Read(t).Get(world.Denom)))
+		maxD := pre.Add(grant).Sub(unv)
+		res.Evaluations++
+		if staked.GT(maxD) {
+			d.viol(res, "grant-with-stake", "unvested-delegated", "the automatic staking of a new grant delegated more than balance minus unvested", p,
+				map[string]any{"delegated": staked.String(), "max_ref": maxD.String(), "unvested_ref": unv.String()})
+		}
+		d.checkLocked(res, "grant-with-stake", nm, p)
+		res.Nontrivial[fmt.Sprintf("%s|grant-with-stake|%d", d.sc.name, d.now()-d.t0)] = true
+		return "ok", nm
 	})
 	add("clawback", func(p []string, res *engine.Result, m model) (string, model) {
 		fbz, err := w.CosmosTx(w.Ctx(), world.CosmosSpec{Key: w.Keys[1], Msgs: []sdk.Msg{vtypes.NewMsgClawback(d.F, d.V, nil)}, Gas: 2000000})
